@@ -26,71 +26,6 @@ def parseHOp (s : String) : Option HOp :=
   else if s.startsWith "T:" then (parseKind (s.drop 2).toString).map .straddle
   else none
 
-def reloadHead (g : Nat) (m : M) (c : Cfg) : List Act :=
-  [.begin g c, .setup] ++ List.replicate (c.addrs.length + 1) .listen ++ [.serve, .stopOld]
-    ++ List.replicate m.cur.addrs.length .stop
-
-/-- the marker a fresh connection to `a` gets right now (the accepting instance answers), `-` if refused -/
-def probe (m : M) (a : Nat) : M × String :=
-  let id := m.nextConn
-  let g := if m.new.accepts a then m.new.gen else m.cur.gen
-  let m' := run m [.connect a, .accept g a, .respond id]
-  match m'.conns.find? (·.id == id) with
-  | some c => (m', match c.answered with | some k => toString k | none => "hang")
-  | none => (m', "-")
-
-/-- socket identities renamed in order of first appearance -/
-def rename (seen : List Nat) (m : M) (a : Nat) : List Nat × Nat :=
-  if m.fds a = 0 then (seen, 0)
-  else match seen.idxOf? (m.sock a) with
-    | some i => (seen, i + 1)
-    | none => (seen ++ [m.sock a], seen.length + 1)
-
-def lastRes (before : Nat) (m : M) : String :=
-  match (m.events.drop before).reverse.find? (fun e => match e with | .reloadOk _ => true | .reloadFailed => true | _ => false) with
-  | some (.reloadOk _) => "ok"
-  | some .reloadFailed => "err"
-  | _ => "none"
-
-def observe (seen : List Nat) (m : M) (res : String) (mid str : Option String) : M × List Nat × HObs :=
-  let (seen, s1) := rename seen m 1
-  let (seen, s2) := rename seen m 2
-  let f1 := m.fds 1
-  let f2 := m.fds 2
-  let (m, p1) := probe m 1
-  let (m, p2) := probe m 2
-  (m, seen, { res := res, fd1 := f1, fd2 := f2, sk1 := s1, sk2 := s2, p1 := p1, p2 := p2, mid := mid, str := str })
-
-def runOps : Nat → List Nat → M → List HOp → List HObs
-  | _, _, _, [] => []
-  | g, seen, m, .reload c :: rest =>
-    let before := m.events.length
-    let m := run m (reloadHead g m c ++ [.finish])
-    let res := lastRes before m
-    let (m, seen, o) := observe seen m res none none
-    o :: runOps (g + 1) seen m rest
-  | g, seen, m, .straddle c :: rest =>
-    let before := m.events.length
-    let sid := m.nextConn
-    let m := run m [.connect 1, .accept m.cur.gen 1]
-    let connected := m.nextConn != sid
-    let m := run m (reloadHead g m c)
-    let (m, mid) := probe m 1
-    let m := if connected then run m [.respond sid] else m
-    let str := if !connected then "-" else match m.conns.find? (·.id == sid) with
-      | some c => (match c.answered with | some k => toString k | none => "hang")
-      | none => "-"
-    let m := run m [.finish]
-    let res := lastRes before m
-    let (m, seen, o) := observe seen m res (some mid) (some str)
-    o :: runOps (g + 1) seen m rest
-
-/-- the model's observations of a hand-over case -/
-def handoverRun (c0 : Cfg) (hops : List HOp) : List HObs :=
-  let m := M.init busy c0.addrs
-  let (m, seen, o) := observe [] m "ok" none none
-  o :: runOps 2 seen m hops
-
 def showObs (o : HObs) : String :=
   let base := s!"{o.res};fd={o.fd1}.{o.fd2};sk={o.sk1}.{o.sk2};p={o.p1}.{o.p2}"
   match o.mid, o.str with
@@ -108,7 +43,7 @@ def parseCase : List String → Option (Cfg × List HOp)
 def handoverModel (f : List String) : String :=
   match parseCase f with
   | none => "bad-case"
-  | some (c, hops) => "|".intercalate ((handoverRun c hops).map showObs)
+  | some (c, hops) => "|".intercalate ((handoverRun busy c hops).map showObs)
 
 def stripPrefix (p s : String) : Option String :=
   if s.startsWith p then some (s.drop p.length).toString else none
